@@ -84,6 +84,16 @@ INSTR_CASES = [
     ("fwver-ble", [("instr", "CHECK_FWVER", {"VERSIONDESC": "01 02 07 31 2E 32 2E 33 2E 34"})], 0x39),
     ("crc", [("header", "CRC", "0xDEADBEEF")], 0x84),
     ("crc-instr", [("instr", "CRC", {"X": "1"})], 0x84),
+    # checksums that are not written with exactly eight hex digits: the tag is always the 4-byte big-endian value
+    ("crc-6-digits", [("header", "CRC", "0x1A2B3C")], 0x84),
+    ("crc-7-digits", [("header", "CRC", "0x1A2B3C4")], 0x84),
+    ("crc-1-digit", [("header", "CRC", "0x7")], 0x84),
+    ("crc-zero", [("header", "CRC", "0x0")], 0x84),
+    ("crc-lower-case", [("header", "CRC", "0xdeadbeef")], 0x84),
+    ("crc-leading-zeros", [("header", "CRC", "0x0000000012")], 0x84),
+    ("crc-9-digits", [("header", "CRC", "0x123456789")], 0x84),
+    ("crc-empty", [("header", "CRC", "0x")], 0x84),
+    ("crc-not-hex", [("header", "CRC", "0xGG")], 0x84),
     ("reboot", [("instr", "REBOOT", {})], None),
     ("no-marker", [], 0x84),
     # a header / instruction named like the parser's internal firmware-data marker is an ordinary unknown name
